@@ -153,7 +153,8 @@ NoEntry == [present |-> FALSE, ver |-> NoVer, fresh |-> FALSE, at |-> 0, more |-
 EmptyCache == [k \in Keys |-> NoEntry]
 \* The listing in progress (at most one): ph "idle" / "sent" (request for page key on its way, gen = the generation
 \* ListTools read before) / "ans" (answered with ver / more, not yet delivered); clean: the listing was started after
-\* the client had handled the list_changed notification for the server's present tool set (see Informed)
+\* the client had handled the list_changed notification for the server's present tool set - and no notification has
+\* arrived since (see Informed)
 Idle == [ph |-> "idle", key |-> "p1", gen |-> 0, ver |-> NoVer, more |-> FALSE, clean |-> FALSE]
 Sent(k, g, cl) == [ph |-> "sent", key |-> k, gen |-> g, ver |-> NoVer, more |-> FALSE, clean |-> cl]
 \* sv: revision of the tool on the server; shifted: the first-page fillers are gone; gen: methodCache.generation;
@@ -210,7 +211,7 @@ Apply(h, st, s) ==
     [] s = "wait" -> [st EXCEPT !.cache = [k \in Keys |-> [st.cache[k] EXCEPT !.fresh = FALSE]]]
     [] s = "change" -> [st EXCEPT !.sv = @ + 1, !.told = FALSE, !.pend = IF h.sub THEN @ + 1 ELSE @]
     [] s = "shrink" -> [st EXCEPT !.shifted = TRUE, !.told = FALSE, !.pend = IF h.sub THEN @ + 1 ELSE @]
-    [] s = "notify" -> [Invalidate(st) EXCEPT !.pend = 0, !.told = TRUE, !.relisted = FALSE]
+    [] s = "notify" -> [Invalidate(st) EXCEPT !.pend = 0, !.told = TRUE, !.relisted = FALSE, !.fly.clean = FALSE]
 
 \* every history of at most n steps in which each step is enabled when it is taken, with the state it leads to
 Cfgs == [ttl : Ttls, page : Pages, sub : BOOLEAN]
